@@ -252,7 +252,20 @@ func execHistCase(c *Sx, env *execEnv) (*Sx, []Violation) {
 					res = At("bad-op")
 					return
 				}
+				// ---- oracle P: whether an insert is accepted depends on the current objects only - a fresh engine holding them
+				// must accept or refuse the same object (a refused insert leaves nothing behind that a later insert can trip over)
+				freshErr, freshKnown := error(nil), false
+				if o.Kind == "anp" || o.Kind == "banp" || o.Kind == "np" {
+					if fe, ferr := tr.freshEngine(); ferr == nil {
+						if r2, e2 := toRuntime(o); e2 == nil {
+							freshErr, freshKnown = fe.InsertObject(r2), true
+						}
+					}
+				}
 				err = pe.InsertObject(r)
+				if freshKnown && (err != nil) != (freshErr != nil) {
+					rep("C15", "history-dependent-insert", fmt.Sprintf("step %d %s: the engine answers %v, a fresh engine with the same objects answers %v", step, op.String()[:min(200, len(op.String()))], err, freshErr), step)
+				}
 				if err != nil {
 					res = errSx(err)
 				} else {
